@@ -108,7 +108,7 @@ pub trait JsonValueTrait {
     /// ```
     #[inline]
     fn is_false(&self) -> bool {
-        !self.is_true()
+        self.as_bool() == Some(false)
     }
 
     /// Returns true if the `self` value is `null`.
